@@ -476,3 +476,73 @@ func VerifC22_throttleWaitEndsOnDisconnect() {
 	clCancel()
 	verifReached("c22-throttle")
 }
+
+// ---- a request registered while the connection is being torn down ----
+
+// die() may run on any goroutine (a failed read, the reaper, a metadata update) while
+// handleReqs registers the next written request with waitResp. Whatever the interleaving of
+// die's steps with waitResp's, the request's promise is called EXACTLY once: either the ring
+// reports the connection dead to waitResp (which then fails the request itself), or the
+// request made it into the ring and is failed by the reader / the ring's death — never both,
+// never neither. One request is already in flight (its reader goroutine parked or running),
+// die() and waitResp(second request) race, 2 delays (thorough 3).
+func VerifC22_registerWhileDying() {
+	delays := 2
+	if verifThorough() {
+		delays = 3
+	}
+	verifPreemptions(delays)
+	cxn, conn := verifC22Cxn()
+	verifC22.frames = []verifC22Frame{{err: io.EOF}, {err: io.EOF}}
+	outs := []*verifC22Out{{}, {}}
+	mk := func(i int) promisedResp {
+		out := outs[i]
+		return promisedResp{ctx: context.Background(), corrID: int32(i + 1), resp: &verifC22Resp{key: 3}, promise: func(r kmsg.Response, err error) {
+			out.calls++
+			out.resp, out.err = r, err
+		}}
+	}
+	cxn.waitResp(mk(0)) // first in flight: spawns the reader
+	done := make(chan struct{}, 1)
+	go func() { cxn.die(); done <- struct{}{} }()
+	cxn.waitResp(mk(1))
+	<-done
+	verifRunAll()
+	verifAssert(verifBlockedCount() == 0, "no goroutine is left blocked")
+	for i, o := range outs {
+		_ = i
+		verifAssert(o.calls == 1, "every request's promise is called exactly once, also when it is registered while the connection is being torn down")
+		verifAssert(o.calls == 0 || o.err != nil, "a request on a dying connection ends with an error")
+	}
+	verifAssert(conn.closed == 1, "the connection is closed exactly once")
+	verifReached("c22-register-while-dying")
+}
+
+// ---- ApiVersions discovery against a broker that keeps answering UNSUPPORTED_VERSION ----
+
+// Connection initialisation runs on no request context, so nothing but the client closing would
+// end an endless downgrade loop: a (buggy or hostile) broker must not be able to keep the client
+// re-asking. The broker answers every ApiVersions request with UNSUPPORTED_VERSION and one key
+// (18) whose max version is an arbitrary int16 each time. requestAPIVersions must return after
+// at most 5 requests (v4, then strictly lower versions down to v0).
+func VerifC22_apiVersionsDowngradeTerminates() {
+	cxn, conn := verifC22Cxn()
+	_ = conn
+	cl := cxn.cl
+	cl.reqFormatter = kmsg.NewRequestFormatter()
+	cl.bufPool = newBufPool()
+	const rounds = 8
+	for i := 0; i < rounds; i++ {
+		v := verifNondetInt16("advertised.maxVersion")
+		verifC22.frames = append(verifC22.frames, verifC22Frame{buf: []byte{
+			0, 0, 0, byte(i), // correlation id
+			0, 35, // UNSUPPORTED_VERSION
+			0, 0, 0, 1, // one key
+			0, 18, 0, 0, byte(uint16(v) >> 8), byte(v), // ApiVersions, min 0, max v
+		}})
+	}
+	err := cxn.requestAPIVersions(0)
+	verifAssert(verifC22.reads <= 5, "a broker that keeps answering UNSUPPORTED_VERSION gets at most 5 ApiVersions requests (v4 and strictly lower versions): the downgrade loop terminates")
+	verifAssert(err != nil, "discovery against such a broker ends with an error")
+	verifReached("c22-apiversions-downgrade")
+}
